@@ -174,7 +174,9 @@ func hostSurface(vm *engine.VM, err error, t engine.Term, env *engine.Env) strin
 		r, ok := hostSeen[key]
 		if !ok {
 			if r = hostRenderTerm(vm, t, env); r == "" {
-				r = prologRenderTerm(vm, t, env)
+				if r = prologRenderTerm(vm, t, env); r == "" {
+					r = prologTraverse(vm, t, env)
+				}
 			}
 			hostSeen[key] = r
 		}
@@ -270,4 +272,250 @@ func init() {
 		c05ShapeIdx[sh.name] = len(c05Shapes)
 		c05Shapes = append(c05Shapes, sh)
 	}
+}
+
+// ---------------------------------------------------------------------------
+// representation shapes: ordinary abstract terms whose Go representation differs from the reader's, because a
+// variable inside them is bound by an EARLIER goal of the same conjunction (a `partial` whose tail is a bound
+// variable, a list element / functor argument that is a bound variable, chains of bindings …)
+// ---------------------------------------------------------------------------
+
+func c05Bind(c *c05Ctx, v engine.Term, t engine.Term) { c.prelude = append(c.prelude, compound("=", v, t)) }
+
+var c05BoundShapes = []c05Shape{
+	{"b.tail", func(c *c05Ctx) engine.Term { // T = [b], [a|T]
+		t := engine.NewVariable()
+		c05Bind(c, t, engine.List(atom("b")))
+		return engine.PartialList(t, atom("a"))
+	}},
+	{"b.nil", func(c *c05Ctx) engine.Term { // T = [], [a|T]
+		t := engine.NewVariable()
+		c05Bind(c, t, atom("[]"))
+		return engine.PartialList(t, atom("a"))
+	}},
+	{"b.elem", func(c *c05Ctx) engine.Term { // E = b, [a,E,c]
+		e := engine.NewVariable()
+		c05Bind(c, e, atom("b"))
+		return engine.List(atom("a"), e, atom("c"))
+	}},
+	{"b.farg", func(c *c05Ctx) engine.Term { // V = g(x), f(V)
+		v := engine.NewVariable()
+		c05Bind(c, v, compound("g", atom("x")))
+		return compound("f", v)
+	}},
+	{"b.chain", func(c *c05Ctx) engine.Term { // T1 = [b|T2], T2 = [c], [a|T1]
+		t1, t2 := engine.NewVariable(), engine.NewVariable()
+		c05Bind(c, t1, engine.PartialList(t2, atom("b")))
+		c05Bind(c, t2, engine.List(atom("c")))
+		return engine.PartialList(t1, atom("a"))
+	}},
+	{"b.alias", func(c *c05Ctx) engine.Term { // T = U, U = [b], [a|T]
+		t, u := engine.NewVariable(), engine.NewVariable()
+		c05Bind(c, t, u)
+		c05Bind(c, u, engine.List(atom("b")))
+		return engine.PartialList(t, atom("a"))
+	}},
+	{"b.str", func(c *c05Ctx) engine.Term { // T = "bc" (chars), [a|T]
+		t := engine.NewVariable()
+		c05Bind(c, t, engine.CharList("bc"))
+		return engine.PartialList(t, atom("a"))
+	}},
+	{"b.codes", func(c *c05Ctx) engine.Term { // T = "bc" (codes), [0'a|T]
+		t := engine.NewVariable()
+		c05Bind(c, t, engine.CodeList("bc"))
+		return engine.PartialList(t, engine.Integer('a'))
+	}},
+	{"b.part", func(c *c05Ctx) engine.Term { // T = [b|_], [a|T]
+		t := engine.NewVariable()
+		c05Bind(c, t, engine.PartialList(engine.NewVariable(), atom("b")))
+		return engine.PartialList(t, atom("a"))
+	}},
+	{"b.app", func(c *c05Ctx) engine.Term { // append("b", [c], T), [a|T]
+		t := engine.NewVariable()
+		c.prelude = append(c.prelude, compound("append", engine.CharList("b"), engine.List(atom("c")), t))
+		return engine.PartialList(t, atom("a"))
+	}},
+	{"b.nest", func(c *c05Ctx) engine.Term { // T = [b], f([a|T], [T])
+		t := engine.NewVariable()
+		c05Bind(c, t, engine.List(atom("b")))
+		return compound("f", engine.PartialList(t, atom("a")), engine.List(t))
+	}},
+	{"b.pairs", func(c *c05Ctx) engine.Term { // V = 1, T = [b-2], [a-V|T]
+		v, t := engine.NewVariable(), engine.NewVariable()
+		c05Bind(c, v, engine.Integer(1))
+		c05Bind(c, t, engine.List(compound("-", atom("b"), engine.Integer(2))))
+		return engine.PartialList(t, compound("-", atom("a"), v))
+	}},
+	{"b.ints", func(c *c05Ctx) engine.Term { // T = [2], [1|T]
+		t := engine.NewVariable()
+		c05Bind(c, t, engine.List(engine.Integer(2)))
+		return engine.PartialList(t, engine.Integer(1))
+	}},
+	{"b.whole", func(c *c05Ctx) engine.Term { // V = [a,b], V
+		v := engine.NewVariable()
+		c05Bind(c, v, engine.List(atom("a"), atom("b")))
+		return v
+	}},
+}
+
+var c05BoundShapeNames []string
+
+func init() { // runs after the init above that registers the edge and expression shapes
+	for _, sh := range c05BoundShapes {
+		c05BoundShapeNames = append(c05BoundShapeNames, sh.name)
+		c05ShapeIdx[sh.name] = len(c05Shapes)
+		c05Shapes = append(c05Shapes, sh)
+	}
+}
+
+// goals that traverse a term and may raise an (ISO) error when it is not what they expect; run one by one on the
+// first answer so that one error does not hide the next traversal
+var c05Traversals = []func(t engine.Term) engine.Term{
+	func(t engine.Term) engine.Term { return compound("length", t, engine.NewVariable()) },
+	func(t engine.Term) engine.Term { return compound("msort", t, engine.NewVariable()) },
+	func(t engine.Term) engine.Term { return compound("sort", t, engine.NewVariable()) },
+	func(t engine.Term) engine.Term { return compound("atom_chars", engine.NewVariable(), t) },
+	func(t engine.Term) engine.Term { return compound("atom_codes", engine.NewVariable(), t) },
+	func(t engine.Term) engine.Term { return compound("=..", t, engine.NewVariable()) },
+	func(t engine.Term) engine.Term { return compound("=..", engine.NewVariable(), t) },
+	func(t engine.Term) engine.Term { return compound("append", t, engine.List(atom("z")), engine.NewVariable()) },
+	func(t engine.Term) engine.Term { return compound("nth0", engine.Integer(1), t, engine.NewVariable()) },
+	func(t engine.Term) engine.Term { return compound("member", atom("zz"), t) },
+	func(t engine.Term) engine.Term { return compound("assertz", compound("$c05_fact", t)) },
+	func(t engine.Term) engine.Term { return compound("keysort", t, engine.NewVariable()) },
+}
+
+// prologTraverse: every argument of the answered goal through the traversals, each as a conjunction
+// `V = Arg, Traversal(V)` compiled before V is bound — the built-in gets the variable, not a rebuilt copy.
+func prologTraverse(vm *engine.VM, goal engine.Term, env *engine.Env) string {
+	c, ok := goal.(engine.Compound)
+	if !ok {
+		return ""
+	}
+	for j := 0; j < c.Arity(); j++ {
+		a := c.Arg(j)
+		switch env.Resolve(a).(type) {
+		case engine.Atom, engine.Integer, engine.Float, engine.Variable, *engine.Stream:
+			continue
+		}
+		for k, mk := range c05Traversals {
+			v := engine.NewVariable()
+			ctx, cancel := context.WithTimeout(context.Background(), 2*time.Second)
+			// V is bound by the Go continuation below, after the traversal goal has been compiled
+			p := engine.Call(vm, compound(",", compound("$c05_bind", v), mk(v)), func(*engine.Env) *engine.Promise { return engine.Bool(true) },
+				env)
+			c05BindTarget, c05BindValue = v, a
+			_, err := p.Force(ctx)
+			cancel()
+			if err != nil {
+				r := c05Result(false, err)
+				if w := strings.Fields(r)[0]; w != "err" {
+					return fmt.Sprintf("traversal%d of argument %d: %s", k, j+1, r)
+				}
+			}
+		}
+	}
+	return ""
+}
+
+var c05BindTarget, c05BindValue engine.Term
+
+// c05RegisterBind: '$c05_bind'(V) unifies V with the value chosen by prologTraverse (a Go-side binding, so the
+// term keeps its representation)
+func c05RegisterBind(i *prolog.Interpreter) {
+	i.Register1(atom("$c05_bind"), func(vm *engine.VM, v engine.Term, k engine.Cont, env *engine.Env) *engine.Promise {
+		return engine.Unify(vm, v, c05BindValue, k, env)
+	})
+}
+
+// c05TraversalTail: goals that walk a term and never raise an error, appended to the conjunction so that the
+// RESULT of the goal under test is traversed by later goals of the same conjunction
+func c05TraversalTail(args []engine.Term) []engine.Term {
+	var out []engine.Term
+	for _, a := range args {
+		if _, ok := a.(engine.Atom); ok {
+			continue
+		}
+		if _, ok := a.(engine.Integer); ok {
+			continue
+		}
+		out = append(out,
+			compound("==", a, a),
+			compound("copy_term", a, engine.NewVariable()),
+			compound("findall", a, atom("true"), engine.NewVariable()),
+			compound("term_variables", a, engine.NewVariable()),
+			compound("\\+", compound("\\=", a, a)))
+	}
+	return out
+}
+
+func c05Conj(gs []engine.Term) engine.Term {
+	t := gs[len(gs)-1]
+	for k := len(gs) - 2; k >= 0; k-- {
+		t = compound(",", gs[k], t)
+	}
+	return t
+}
+
+// c05InContext: the goal in one of the execution contexts that differ in how bindings reach a built-in.
+//   T   top-level conjunction:  Prelude, Goal, Traversals          (the built-in gets the variable, bound at run time)
+//   S   body of a stored clause: assertz(('$c05'(Vs) :- Prelude, Goal, Traversals)), then '$c05'(Vs)
+//   Rc Rk Rf Rn   Prelude, then call(Goal) / catch(Goal,E,throw(E)) / findall(x,Goal,_) / \+ \+ Goal
+//                 (these recompile the goal with the bindings applied)
+func c05InContext(i *prolog.Interpreter, ctx string, prelude []engine.Term, goal engine.Term, args []engine.Term) engine.Term {
+	body := append(append([]engine.Term{}, prelude...), atom("$prelude_done"))
+	switch ctx {
+	case "T", "S":
+		if c, ok := goal.(engine.Compound); ok && c.Arity() == 2 {
+			switch c.Functor().String() {
+			case ",", ";", "->":
+				goal = compound("call", goal) // see runC05Matrix
+			}
+		}
+		body = append(body, goal)
+		body = append(body, c05TraversalTail(args)...)
+	case "Rc":
+		body = append(body, compound("call", goal))
+	case "Rk":
+		e := engine.NewVariable()
+		body = append(body, compound("catch", goal, e, compound("throw", e)))
+	case "Rf":
+		// (first answer only: the goal may legitimately have infinitely many, e.g. append(_, [a|T], _))
+		body = append(body, compound("findall", atom("x"), compound(",", goal, atom("!")), engine.NewVariable()))
+	case "Rn":
+		body = append(body, compound("\\+", compound("\\+", goal)))
+	default:
+		panic("unknown execution context " + ctx)
+	}
+	if ctx != "S" {
+		return c05Conj(body)
+	}
+	// the variables of the goal are the arguments of the stored clause's head, so that the answer is visible
+	var vs []engine.Term
+	seen := map[engine.Variable]bool{}
+	var walk func(t engine.Term)
+	walk = func(t engine.Term) {
+		switch t := t.(type) {
+		case engine.Variable:
+			if !seen[t] {
+				seen[t] = true
+				vs = append(vs, t)
+			}
+		case engine.Compound:
+			for k := 0; k < t.Arity(); k++ {
+				walk(t.Arg(k))
+			}
+		}
+	}
+	walk(goal)
+	var head engine.Term = atom("$c05")
+	if len(vs) > 0 {
+		head = atom("$c05").Apply(vs...)
+	}
+	ok, err := engine.Call(&i.VM, compound("assertz", compound(":-", head, c05Conj(body))), engine.Success, nil).Force(context.Background())
+	if err != nil || !ok {
+		// the clause does not compile (e.g. a non-callable argument of a control construct): the call reports it
+		return compound("assertz", compound(":-", head, c05Conj(body)))
+	}
+	return head
 }
